@@ -1,9 +1,10 @@
 (* C13 - instance readers are total and faithful.
-   Statements only; every proof is [exact] of a lemma of Proofs/ReadersProofs.v, Proofs/ApxProofs.v.
+   Statements only; every proof is [exact] of a lemma of Proofs/ReadersProofs.v, Proofs/ApxProofs.v
+   (C13_apx_framework_attacks: Proofs/WritersProofs.v, which also defines [has_att_lab]).
    Vocabulary (abstract instances, rendering choices, [render_lines]): Spec/IoSpec.v.
    The readers are the total functions [read_iccma], [read_apx] : bytes -> RdOk fw | RdErr | RdPanic
    of Model/Readers.v ([lines] = BufRead::lines() + UTF-8 validation). *)
-From Crusta Require Import Spec.IoSpec Proofs.IoBase Proofs.ReadersProofs Proofs.ApxProofs.
+From Crusta Require Import Spec.IoSpec Proofs.IoBase Proofs.ReadersProofs Proofs.ApxProofs Proofs.WritersProofs.
 
 (* ------------------------------------------------------------------ ICCMA'23 *)
 
@@ -104,6 +105,15 @@ Theorem C13_apx_framework_labels : forall decls,
   iter_args str (fw_new_with_labels str str_eqb decls) = numbered 0 (dedup str_eqb [] decls).
 Proof. exact (ReadersProofs.init_iter_args str str_eqb). Qed.
 
+(* ... and its attacks, as a set of label pairs, are exactly the declared attacks ([has_att_lab f a b]:
+   some attack of [iter_attacks f] joins the arguments that [iter_args f] labels a and b); no attack
+   is stored twice, however often it is declared *)
+Theorem C13_apx_framework_attacks : forall decls atts,
+  (forall p, In p atts -> In (fst p) decls /\ In (snd p) decls) ->
+  NoDup (iter_attacks str (apx_result decls atts)) /\
+  forall a b, has_att_lab (apx_result decls atts) a b <-> In (a, b) atts.
+Proof. exact WritersProofs.apx_result_attacks. Qed.
+
 (* (c) rejection, on the decoded lines of an arbitrary file *)
 Theorem C13_apx_rejects_invalid_utf8 : forall bytes, In None (lines bytes) -> read_apx bytes = RdErr.
 Proof. exact (fun bytes => ApxProofs.apx_rejects_invalid_utf8 (lines bytes) [] None). Qed.
@@ -136,6 +146,51 @@ Proof.
                     (ApxProofs.apx_rejects_arg_after_att pre l1 mid l2 post x [] None H1 H2 H3 H4 H5)).
 Qed.
 
+(* an `att(a,b).` line naming an argument that no EARLIER `arg` line declared ([declared_labels pre]:
+   the identifiers of the `arg(..).` lines among the lines before it, Proofs/ApxProofs.v), for
+   arbitrary content before (if that content is itself rejected, the file is rejected as well)
+   and after the line *)
+Theorem C13_apx_rejects_undeclared_argument : forall bytes pre l post x1 x2 a b,
+  lines bytes = pre ++ Some l :: post ->
+  all_ws l = false -> match_arg_line l = None -> match_att_line l = Some (x1, x2) ->
+  match_ident_ws x1 = Some a -> match_ident_ws x2 = Some b ->
+  (~ In a (declared_labels pre) \/ ~ In b (declared_labels pre)) ->
+  read_apx bytes = RdErr.
+Proof.
+  exact (fun bytes pre l post x1 x2 a b E H1 H2 H3 H4 H5 Hun =>
+           eq_trans (f_equal (fun ls => apx_lines ls [] None) E)
+                    (ApxProofs.apx_rejects_undeclared pre l post x1 x2 a b H1 H2 H3 H4 H5 Hun)).
+Qed.
+
+(* (d) read_arg_from_str on the framework the reader returned (C13_apx_faithful): Ok exactly for
+   the declared labels, and then the argument (id, label) of [iter_args] with that label; Err
+   exactly for every other string; never a panic; [iter_args] repeated for reference *)
+Theorem C13_apx_read_arg_exact : forall decls atts s,
+  (forall k l, apx_read_arg (apx_result decls atts) s = RdOk (k, l) <->
+               l = s /\ In (k, s) (iter_args str (apx_result decls atts))) /\
+  (apx_read_arg (apx_result decls atts) s = RdErr <-> ~ In s decls) /\
+  apx_read_arg (apx_result decls atts) s <> RdPanic /\
+  iter_args str (apx_result decls atts) = numbered 0 (dedup str_eqb [] decls).
+Proof. exact ApxProofs.apx_read_arg_exact. Qed.
+
+(* the same on ANY store reachable by any update history (tombstoned ids included): unlike the
+   ICCMA'23 read_arg_from_str (observation O-io-1), the Aspartix one is exact on every store *)
+Theorem C13_apx_read_arg_any_store : forall (f : fw str) s,
+  (exists ls os, f = run_ops str str_eqb (fw_new_with_labels str str_eqb ls) os) ->
+  (forall k l, apx_read_arg f s = RdOk (k, l) <-> l = s /\ In (k, s) (iter_args str f)) /\
+  (apx_read_arg f s = RdErr <-> ~ In s (map snd (iter_args str f))) /\
+  apx_read_arg f s <> RdPanic.
+Proof. exact ApxProofs.apx_read_arg_store. Qed.
+
+(* the hypotheses of C13_apx_rejects_undeclared_argument are satisfiable: `arg(a).` then `att(a,b).` *)
+Example C13_example_undeclared :
+  let bytes := [97; 114; 103; 40; 97; 41; 46; 10; 97; 116; 116; 40; 97; 44; 98; 41; 46; 10]%N in
+  lines bytes = [Some [97; 114; 103; 40; 97; 41; 46]%N] ++ Some [97; 116; 116; 40; 97; 44; 98; 41; 46]%N :: [] /\
+  declared_labels [Some [97; 114; 103; 40; 97; 41; 46]%N] = [[97%N]] /\
+  match_att_line [97; 116; 116; 40; 97; 44; 98; 41; 46]%N = Some ([97%N], [98%N]) /\
+  match_ident_ws [98%N] = Some [98%N] /\ read_apx bytes = RdErr.
+Proof. vm_compute. repeat split; reflexivity. Qed.
+
 Print Assumptions C13_iccma_total.
 Print Assumptions C13_iccma_faithful.
 Print Assumptions C13_iccma_framework_shape.
@@ -148,8 +203,12 @@ Print Assumptions C13_iccma_read_arg_exact.
 Print Assumptions C13_apx_total.
 Print Assumptions C13_apx_faithful.
 Print Assumptions C13_apx_framework_labels.
+Print Assumptions C13_apx_framework_attacks.
 Print Assumptions C13_apx_rejects_invalid_utf8.
 Print Assumptions C13_apx_rejects_syntax_error.
 Print Assumptions C13_apx_rejects_bad_arg_name.
 Print Assumptions C13_apx_rejects_bad_att_names.
 Print Assumptions C13_apx_rejects_arg_after_att.
+Print Assumptions C13_apx_rejects_undeclared_argument.
+Print Assumptions C13_apx_read_arg_exact.
+Print Assumptions C13_apx_read_arg_any_store.
